@@ -79,7 +79,7 @@ func replayCorpus(dir, mode string, w *vh.Writer) int {
 				panic(fmt.Sprint("cert.SkiFromCertificate panicked on a corpus certificate: ", p))
 			}
 			w.Put(vh.Case{
-				Coq:        fmt.Sprintf("CSki %s %s %s", tblOf(ct), ct.coq(), vh.Opt(ok, vh.HxS(s))),
+				Coq:        fmt.Sprintf("CSki %s %s", ct.dcoq(), vh.Opt(ok, vh.HxS(s))),
 				Nontrivial: ct.hasSki && len(ct.skiExt) == 20,
 				Key:        fmt.Sprintf("ski|%s|%s|%x|%x", ct.kind, ct.keyTyp, ct.skiExt, ct.spk),
 				Kind:       "corpus_" + k,
